@@ -294,16 +294,24 @@ def g5(ctx):
     variants = None
     for p, evs in ret_paths(ctx, b, include_panic=True):
         wk = [e for e in evs if e.name == 'BR' and e.data['label'] == 'wakerkind']
+        adt = ctx.facts.adts.get('signal::KanalWaker')
+        adt_variants = [v['name'] for v in adt['variants']] if adt else []
         if not wk:
-            ctx.violate(b.key, p, 'wake does not dispatch on the waiter\'s own waker kind')
-            continue
-        d = wk[0].data['val']
-        if d[0] == 'discr':
-            variants = [vn for vn, _ in d[2]]
-            pl = d[1]
-            if not (pl[0] == 'load' and pl[1] == ('pfield', ('deref', ('param', 1)), 'waker')):
-                ctx.violate(b.key, p, 'wake dispatches on something other than (*this).waker')
-        kind = wk[0].data['outcome']
+            if len(adt_variants) == 1:
+                # a single-variant enum needs no discriminant test (configuration without async)
+                variants = adt_variants
+                kind = adt_variants[0]
+            else:
+                ctx.violate(b.key, p, 'wake does not dispatch on the waiter\'s own waker kind')
+                continue
+        else:
+            d = wk[0].data['val']
+            if d[0] == 'discr':
+                variants = [vn for vn, _ in d[2]]
+                pl = d[1]
+                if not (pl[0] == 'load' and pl[1] == ('pfield', ('deref', ('param', 1)), 'waker')):
+                    ctx.violate(b.key, p, 'wake dispatches on something other than (*this).waker')
+            kind = wk[0].data['outcome']
         kinds_seen.add(kind)
         if p.end == 'panic':
             if kind != 'None':
